@@ -456,6 +456,44 @@ theorem lemma_register (s : St) (m : Mon) (hR : Rel s m) (i : Nat) (r : RouteId)
               · cases h1
               · exact lemma_done_stable _ _ (hR.frozenPt ⟨j, h1⟩) }
 
+/-- the unlocked flag test at the top of a registration -/
+theorem lemma_register_check (kinds : List Kind) (s : St) (m : Mon) (hR : Rel s m) (i : Nat) (r : RouteId)
+    (hi : i < s.status.length) :
+    ∃ m', m.next (.register r)
+        { actor := i, vis := visOf (stepActor kinds s i (.register r) .start).1 i,
+          out := (stepActor kinds s i (.register r) .start).2 } = some m' ∧
+      Rel (stepActor kinds s i (.register r) .start).1 m' := by
+  have hsf := hR.inv.serving_frozen
+  simp only [stepActor]
+  by_cases hobj : s.core.objs.contains r = true
+  · have hres : registerRes s.core r = .na := by simp only [registerRes, hobj, ↓reduceIte]
+    have hacc : m.accepted.contains r = true := by rw [hR.accepted]; exact hobj
+    rw [hres]
+    simp only
+    rw [lemma_setStatus_vis_finished s i hi, lemma_next_register]
+    refine ⟨m, ?_, lemma_rel_setStatus s m hR i _ (Or.inl (by simp))⟩
+    simp only [hacc, ↓reduceIte]
+  · have hobj' : s.core.objs.contains r = false := by simpa using hobj
+    have hacc : m.accepted.contains r = false := by rw [hR.accepted]; exact hobj'
+    have hmem : r ∉ m.accepted := by simpa using hacc
+    by_cases hsv : (s.core.serving || s.core.frozen) = true
+    · have hres : registerRes s.core r = .rejected := by
+        simp only [registerRes, hobj', hsv, ↓reduceIte, Bool.false_eq_true]
+      have hfr : s.core.frozen = true := by
+        rw [hsf] at hsv; simpa using hsv
+      have hsb : m.servingBegun = true := by rw [hR.serving]; exact hfr
+      rw [hres]
+      simp only
+      rw [lemma_setStatus_vis_finished s i hi, lemma_next_register]
+      refine ⟨m, ?_, lemma_rel_setStatus s m hR i _ (Or.inl (by simp))⟩
+      simp [hmem, mutationOK, hsb]
+    · have hsv' : (s.core.serving || s.core.frozen) = false := by simpa using hsv
+      have hres : registerRes s.core r = .accepted := by
+        simp only [registerRes, hobj', hsv', ↓reduceIte, Bool.false_eq_true]
+      rw [hres]
+      simp only
+      exact lemma_quiet m _ i _ (lemma_rel_setStatus s m hR i _ (Or.inl (by simp)))
+
 theorem lemma_where_fields (c : Core) (r : RouteId) (h1 : c.objs.contains r = true) (h2 : c.frozen = false) :
     (c.step (.whereInt r)).objs = c.objs ∧ (c.step (.whereInt r)).cons = r :: c.cons ∧
     (c.step (.whereInt r)).named = c.named := by
@@ -621,6 +659,10 @@ theorem lemma_stepActor (kinds : List Kind) (s : St) (m : Mon) (hR : Rel s m) (i
     cases k with
     | request t v => exact lemma_lookup s m hR i t v hs
     | _ => exact lemma_quiet m _ i s hR
+  | atChecked =>
+    cases k with
+    | register r => exact lemma_register s m hR i r hi
+    | _ => exact lemma_quiet m _ i s hR
   | start =>
     cases k with
     | request t v =>
@@ -641,7 +683,7 @@ theorem lemma_stepActor (kinds : List Kind) (s : St) (m : Mon) (hR : Rel s m) (i
       | drained => exact lemma_quiet m _ i _ (lemma_rel_setStatus s m hR i _ (Or.inl (by simp)))
       | registered => exact lemma_quiet m _ i _ (lemma_rel_setStatus s m hR i _ (Or.inl (by simp)))
       | compiled => exact lemma_quiet m _ i _ (lemma_rel_setStatus s m hR i _ (Or.inl (by simp)))
-    | register r => exact lemma_register s m hR i r hi
+    | register r => exact lemma_register_check kinds s m hR i r hi
     | whereInt r => exact lemma_whereInt s m hR i r hi
     | setName r => exact lemma_setName s m hR i r hi
     | urlFor r => exact lemma_urlFor s m hR i r hi
